@@ -293,6 +293,67 @@ def interleaved(chk, rng, tier, pairs, answers, limit, stats):
     return dis
 
 
+def changed_in_place(chk, rng, tier, pairs, answers, stats):
+    """The caller keeps its two example lists, reads some predicates, adds an example IN PLACE, and calls construct() again with
+    the same list objects: the second stream is the stream of the lists as they are now (judged on the real objects: every
+    yielded predicate separates the CURRENT sets)."""
+    n = 80 if tier == "quick" else 600
+    cand = [(p, a) for p, a in zip(pairs, answers) if a and p[0] and p[1]]
+    runs = 0
+    for _ in range(n):
+        if not cand:
+            break
+        (fi, ti), ans = rng.choice(cand)
+        F, T = mk(fi), mk(ti)
+        try:
+            it, _ = budget.limited(lambda: construct(F, T), EVENTS_SHALLOW)
+            first = []
+            for _k in range(min(len(ans), rng.randint(1, 3))):
+                v, _ = budget.limited(lambda: next(it), EVENTS_SHALLOW)
+                first.append(v)
+        except Exception:  # noqa: BLE001
+            continue
+        # an example that the predicates found so far get wrong: something they accept goes to the false list (or the reverse)
+        extra = [i for i in range(len(POOL)) if i not in fi and i not in ti]
+        rng.shuffle(extra)
+        pick = None
+        for i in extra:
+            x = POOL[i][1]()
+            acc = [call(q, x) for q in first]
+            if any(a is True for a in acc):
+                pick = (i, "false")
+                break
+            if any(a is False for a in acc):
+                pick = (i, "true")
+                break
+        if pick is None:
+            continue
+        i, side = pick
+        (F if side == "false" else T).append(POOL[i][1]())
+        fi2, ti2 = (list(fi) + [i], list(ti)) if side == "false" else (list(fi), list(ti) + [i])
+        runs += 1
+        inp = {"history": f"construct(F, T) read {len(first)}; {'F' if side == 'false' else 'T'}.append({POOL[i][0]}) in place; construct(F, T) again with the same list objects",
+               "F": names(fi), "T": names(ti), "added": POOL[i][0], "to": side}
+        second = []
+        try:
+            it2, _ = budget.limited(lambda: construct(F, T), EVENTS_SHALLOW)
+            for _k in range(3):
+                v, _ = budget.limited(lambda: next(it2), EVENTS_SHALLOW)
+                second.append(v)
+        except Exception:  # noqa: BLE001  (StopIteration, Starved: fewer predicates is no failure of this clause)
+            pass
+        Fc, Tc = mk(fi2), mk(ti2)
+        for pos, q in enumerate(second):
+            bad_t = [POOL[j][0] for j, x in zip(ti2, Tc) if call(q, x) is not True]
+            bad_f = [POOL[j][0] for j, x in zip(fi2, Fc) if call(q, x) is not False]
+            chk.evaluations += len(Tc) + len(Fc)
+            if bad_t or bad_f:
+                chk.add_failure(inp, {"what": "a predicate yielded for lists that were changed in place since an earlier call does not separate them", "position": pos, "predicate": repr(q), "not_true_on": bad_t, "not_false_on": bad_f}, None)
+                break
+    stats["changed_in_place_histories"] = runs
+    chk.extra["changed_in_place_histories"] = runs
+
+
 def corr_mutations(chk, rng, tier):
     """create_mutations vs `mutations`; gray_product vs `grayPairs`."""
     dis = []
@@ -417,6 +478,7 @@ def main(tier):
         mdis = []
         chk.extra["mutations_tie_skipped"] = f"{type(e).__name__}: {e}"[:300]
     idis = interleaved(chk, rng, tier, pairs, answers, limit, stats)
+    changed_in_place(chk, rng, tier, pairs, answers, stats)
 
     # (a disagreement between model and code is a broken correspondence: finish() reports it, with the first disagreements in the replay)
 
